@@ -566,10 +566,45 @@ end
 /-- `CodeGenInterner::new().program(&mut p)` on the term -/
 def intern (t : Term Name) : Except Err (Term Name) := (internTerm t Interner.new).map (·.1)
 
-/-- binder resolution by the interner's key `(text, unique)` -/
-def resolveKey : List (String × Int) → String × Int → Option Nat
+section ByKey
+variable {κ : Type} [DecidableEq κ]
+/-- binder resolution by an arbitrary key of the name (the interners' notion of "same variable") -/
+def resolveKey : List κ → κ → Option Nat
   | [], _ => none
   | v :: env, k => if v = k then some 1 else (resolveKey env k).map (· + 1)
+
+variable (key : Name → κ)
+mutual
+  /-- spec: the de Bruijn form of a named term when binding is decided by `key n` instead of
+  `n.unique` (`key n = (n.text, n.unique)` for `CodeGenInterner`, `key n = n.text` for the parser) -/
+  def specByKey (env : List κ) : Term Name → Except Err (Term DeBruijn)
+    | .var n =>
+      match resolveKey env (key n) with
+      | some i => .ok (.var i)
+      | none => .error (.freeUnique n)
+    | .delay t => do pure (.delay (← specByKey env t))
+    | .lam n body => do pure (.lam 0 (← specByKey (key n :: env) body))
+    | .app f a => do
+      let f' ← specByKey env f
+      let a' ← specByKey env a
+      pure (.app f' a')
+    | .const c => pure (.const c)
+    | .force t => do pure (.force (← specByKey env t))
+    | .error => pure .error
+    | .builtin b => pure (.builtin b)
+    | .constr tag fs => do pure (.constr tag (← specByKeyList env fs))
+    | .case c bs => do
+      let c' ← specByKey env c
+      let bs' ← specByKeyList env bs
+      pure (.case c' bs')
+  def specByKeyList (env : List κ) : List (Term Name) → Except Err (List (Term DeBruijn))
+    | [] => pure []
+    | t :: ts => do
+      let t' ← specByKey env t
+      let ts' ← specByKeyList env ts
+      pure (t' :: ts')
+end
+end ByKey
 
 -- ---------------------------------------------------------------- parser Interner (parser/interner.rs)
 /-- `parser::interner::Interner { identifiers: HashMap<String, Unique>, current }` -/
